@@ -544,7 +544,11 @@ func (hm *HandshakeManager) unlockedDeleteHostInfo(hostinfo *HostInfo) {
 		hm.vpnIps = map[netip.Addr]*HandshakeHostInfo{}
 	}
 
-	delete(hm.indexes, hostinfo.localIndexId)
+	// Only release the pending index if it is still held by this hostinfo. Deletes can repeat
+	// (recv_error on an established tunnel also lands here) after the index was allocated again.
+	if cur, ok := hm.indexes[hostinfo.localIndexId]; ok && cur.hostinfo == hostinfo {
+		delete(hm.indexes, hostinfo.localIndexId)
+	}
 	if len(hm.indexes) == 0 {
 		hm.indexes = map[uint32]*HandshakeHostInfo{}
 	}
